@@ -216,9 +216,15 @@ side_by_side_tiff_start(struct Storage* self_) noexcept
                 .is_ref = 1,
             };
             CHECK(self->tiff);
+            // This device drives the inner writer directly, so it has to do
+            // what the HAL does for a top-level device: record the state the
+            // writer reports. The writer's stop() only finalizes the file
+            // (terminates the directory chain, closes it) when it is Running.
             state = self->tiff->set(self->tiff, &props);
+            self->tiff->state = state;
             CHECK(state == DeviceState_Armed);
             state = self->tiff->start(self->tiff);
+            self->tiff->state = state;
             CHECK(state == DeviceState_Running);
         }
 
